@@ -1,10 +1,15 @@
 """C17 - pipeline property judged by spec/QuillContract.tla (flag ok17) through TLC trace validation (spec/TraceQuill.tla) of
 executions of the real frontend/backend recorded by harness/h_sys; scenario family in props/sysfam.py; implementation-shaped
-exploration in spec/Quill.tla."""
-import sysfam, qsys
+exploration in spec/Quill.tla (pipeline with logger removal) and spec/Registry.tla (logger and sink registries, object
+lifetimes, create/get/remove by name; tools/regmodel.py)."""
+import os
+import sysfam, qsys, regmodel
 
 
 def run(ck):
+    regmodel.run_for(ck)
+    if os.environ.get("VERIF_PART") == "model":      # analysis aid: the design-level part alone
+        return
     def extra(rng):
         # registry concurrency family on the shadow-Spinlock build
         out = []
